@@ -60,7 +60,7 @@ func (o JobOpts) driveOpts() drive.Options {
 	return d
 }
 
-const recycleAfter = 150
+const recycleAfter = 40
 
 // WorkerMain is the body of `vh worker job out shard nshards start`.
 func WorkerMain(args []string) int {
